@@ -7,7 +7,9 @@ import (
 	"os"
 	"regexp"
 	"strings"
+	"sync"
 	"testing"
+	"time"
 
 	lua "github.com/yuin/gopher-lua"
 	"github.com/yuin/gopher-lua/parse"
@@ -45,6 +47,30 @@ var sharedState = lua.NewState(lua.Options{SkipOpenLibs: true})
 // loadOnce loads through LState.LoadString and reports what happened.  A Go panic is turned into an error here
 // because "never panics out of Load" is the property.
 func loadOnce(src string) (o outcome, perr error) {
+	// "never hangs": a load that has not returned after 30 s (the largest texts generated here load in well under a
+	// second) is reported; the driver believes it only when the saved case does the same again in a fresh process
+	type res struct {
+		o   outcome
+		err error
+	}
+	ch := make(chan res, 1)
+	go func() {
+		o, err := loadOnceUnguarded(src)
+		ch <- res{o, err}
+	}()
+	select {
+	case r := <-ch:
+		return r.o, r.err
+	case <-time.After(30 * time.Second):
+		return o, fmt.Errorf("LoadString had not returned after 30 s")
+	}
+}
+
+var loadMu sync.Mutex
+
+func loadOnceUnguarded(src string) (o outcome, perr error) {
+	loadMu.Lock()
+	defer loadMu.Unlock()
 	defer func() {
 		if r := recover(); r != nil {
 			perr = fmt.Errorf("LoadString panicked: %v", r)
@@ -619,5 +645,161 @@ func TestLoadGotoPrograms(t *testing.T) {
 		var b strings.Builder
 		genGotoBlock(rt, &b, 3)
 		chkRepeat.Run(rt, &LoadCase{Src: []byte(b.String()), Text: b.String(), Kind: "goto_program"})
+	})
+}
+
+// ---------------------------------------------------------------------------------------------
+// control-flow skeletons: every statement kind with empty or tiny bodies in every position, including loops that never
+// end (loading them must still end) - the shapes on which jump threading, label resolution and block exits work
+
+func genSkeleton(rt *rapid.T, depth int, inLoop bool, labels *int) string {
+	var b strings.Builder
+	n := rapid.IntRange(0, 3).Draw(rt, "nstmts")
+	for i := 0; i < n; i++ {
+		cond := rapid.SampledFrom([]string{"c", "true", "false", "nil", "not c", "c and d", "c or d", "1", "x == 1"}).Draw(rt, "cond")
+		kind := rapid.IntRange(0, 13).Draw(rt, "kind")
+		if depth <= 0 && kind < 9 {
+			kind = 9 + kind%5
+		}
+		switch kind {
+		case 0:
+			fmt.Fprintf(&b, "if %s then %s end ", cond, genSkeleton(rt, depth-1, inLoop, labels))
+		case 1:
+			fmt.Fprintf(&b, "if %s then %s else %s end ", cond, genSkeleton(rt, depth-1, inLoop, labels), genSkeleton(rt, depth-1, inLoop, labels))
+		case 2:
+			fmt.Fprintf(&b, "if %s then %s elseif d then %s end ", cond, genSkeleton(rt, depth-1, inLoop, labels), genSkeleton(rt, depth-1, inLoop, labels))
+		case 3:
+			fmt.Fprintf(&b, "while %s do %s end ", cond, genSkeleton(rt, depth-1, true, labels))
+		case 4:
+			fmt.Fprintf(&b, "repeat %s until %s ", genSkeleton(rt, depth-1, true, labels), cond)
+		case 5:
+			fmt.Fprintf(&b, "for i = 1, 2 do %s end ", genSkeleton(rt, depth-1, true, labels))
+		case 6:
+			fmt.Fprintf(&b, "for k, v in next, t do %s end ", genSkeleton(rt, depth-1, true, labels))
+		case 7:
+			fmt.Fprintf(&b, "do %s end ", genSkeleton(rt, depth-1, inLoop, labels))
+		case 8:
+			*labels++
+			l := *labels
+			if rapid.Bool().Draw(rt, "backward") {
+				fmt.Fprintf(&b, "::l%d:: %s goto l%d ", l, genSkeleton(rt, depth-1, inLoop, labels), l)
+			} else {
+				fmt.Fprintf(&b, "do goto l%d %s ::l%d:: end ", l, genSkeleton(rt, depth-1, inLoop, labels), l)
+			}
+		case 9:
+			b.WriteString("f() ")
+		case 10:
+			b.WriteString("x = 1 ")
+		case 11:
+			if inLoop {
+				b.WriteString("do break end ")
+			} else {
+				b.WriteString("local y = c ")
+			}
+		case 12:
+			b.WriteString("do return end ")
+		default:
+			b.WriteString("local g = function() return x end ")
+		}
+	}
+	return b.String()
+}
+
+func TestLoadSkeletons(t *testing.T) {
+	vf.Rapid(t, func(rt *rapid.T) {
+		labels := 0
+		src := "local c, d, x, t, f = ...\n" + genSkeleton(rt, rapid.IntRange(1, 4).Draw(rt, "depth"), false, &labels)
+		if rapid.IntRange(0, 3).Draw(rt, "infunction") == 0 {
+			src = "local c, d, x, t, f = ...\nreturn function() " + genSkeleton(rt, 3, false, &labels) + " end"
+		}
+		chkLoad.Run(rt, &LoadCase{Src: []byte(src), Text: src, Kind: "skeleton"})
+	})
+}
+
+// ---------------------------------------------------------------------------------------------
+// glued tokens: where the lexer's longest-match rule keeps two tokens apart, blank space between them is irrelevant
+
+type GlueCase struct {
+	Tokens []string `json:"tokens"`
+}
+
+var glueOperands = []string{"0xe", "0xE", "0xfe", "0XFE", "0x1e", "0xee", "0Xe", "14", "1e5", "1E5", "1e+5", "1e-5", "2.", "0.5", ".5", "3.0e2", "0xa", "0xf", "7", "0",
+	"x", "e", "E", "xe", "e1", "\"s\"", "'e'", "[[e]]", "nil", "true", "{}", "#t", "t.e", "t[1]", "f(1)"}
+var glueOps = []string{"+", "-", "*", "/", "%", "^", "==", "~=", "<", "<=", ">", ">=", "..", "and", "or"}
+
+var chkGlue = vf.Register("glued_tokens", func(k *vf.C, c *GlueCase) error {
+	render := func(sep func(a, b string) string) string {
+		var b strings.Builder
+		b.WriteString("local x, e, E, xe, e1, t, f = 1, 2, 3, 4, 5, {e = 6, 7}, function(a) return a end\nreturn ")
+		for i, tk := range c.Tokens {
+			if i > 0 {
+				b.WriteString(sep(c.Tokens[i-1], tk))
+			}
+			b.WriteString(tk)
+		}
+		return b.String()
+	}
+	spaced := render(func(a, b string) string { return " " })
+	glued := render(func(a, b string) string {
+		if lgen.NeedsSpace(a, b) {
+			return " "
+		}
+		return ""
+	})
+	newlines := render(func(a, b string) string { return "\n --x\n\t" })
+	run := func(src string) (string, error) {
+		o, err := loadOnce(src)
+		if err != nil {
+			return "", err
+		}
+		if !o.ok {
+			return "rejected", nil
+		}
+		L := lua.NewState()
+		defer L.Close()
+		if err := L.DoString(src); err != nil {
+			return "runtime error", nil
+		}
+		return strings.Join(e1.GTraceStrings([]e1.GEvent{{Kind: "value", Vals: []lua.LValue{L.Get(-1)}}}), ""), nil
+	}
+	a, err := run(spaced)
+	if err != nil {
+		return err
+	}
+	for name, src := range map[string]string{"glued": glued, "broken over lines": newlines} {
+		b, err := run(src)
+		if err != nil {
+			return err
+		}
+		if a != b {
+			return fmt.Errorf("%q gives %s, the same tokens %s (%q) give %s", spaced, a, name, src, b)
+		}
+	}
+	k.Class("outcome:" + map[bool]string{true: "value", false: a}[strings.HasPrefix(a, "value")])
+	if glued != spaced {
+		k.Nontrivial(vf.Hash(glued))
+		k.Sample("glued", 2, map[string]any{"spaced": spaced, "glued": glued, "outcome": a})
+	}
+	return nil
+})
+
+func TestLoadGlued(t *testing.T) {
+	vf.Rapid(t, func(rt *rapid.T) {
+		c := &GlueCase{}
+		n := rapid.IntRange(2, 5).Draw(rt, "operands")
+		for i := 0; i < n; i++ {
+			if i > 0 {
+				c.Tokens = append(c.Tokens, rapid.SampledFrom(glueOps).Draw(rt, "op"))
+			}
+			if rapid.IntRange(0, 5).Draw(rt, "unary") == 0 {
+				c.Tokens = append(c.Tokens, rapid.SampledFrom([]string{"-", "not", "#"}).Draw(rt, "unop"))
+			}
+			if rapid.IntRange(0, 6).Draw(rt, "paren") == 0 {
+				c.Tokens = append(c.Tokens, "(", rapid.SampledFrom(glueOperands).Draw(rt, "operand"), ")")
+			} else {
+				c.Tokens = append(c.Tokens, rapid.SampledFrom(glueOperands).Draw(rt, "operand"))
+			}
+		}
+		chkGlue.Run(rt, c)
 	})
 }
